@@ -177,8 +177,41 @@ def enum_cases(tier):
                 yield {"alphabet": "AC", "L": LL, "k": k, "engine": engine, "rot": rot, "step": step}
 
 
+def check_dense(case, rec):
+    """Dense equal-length families (all single substitutions of 1-3 founders) mixed with shorter and longer sequences: hundreds of
+    mutual Hamming neighbours, many exactly on the radius, in one length bucket of several hundred sequences."""
+    k = case["k"]
+    seqs, meta = G.dense_collection(case["founders"], case.get("per_founder"), case.get("step", 1))
+    want = G.dense_neighbours(meta, k)                      # equal length, substitutions only: Hamming == Levenshtein here
+    extra = ["CASSLGQAYEQ", "CASSLGQAYEQYF", "CASSLGQAYEQ", "W"]      # other lengths, interleaved; the two equal ones are neighbours
+    full = list(seqs)
+    for i, e in enumerate(extra):
+        full.insert((i * 37) % (len(full) + 1), e)
+    # positions of the family members and of the other-length sequences inside `full` (no family member has their lengths)
+    mapping = [i for i, s_ in enumerate(full) if len(s_) == 12]
+    ex_pos = [i for i, s_ in enumerate(full) if len(s_) != 12]
+    want_full = [(mapping[a], mapping[b], d) for a, b, d in want]
+    e11 = [i for i in ex_pos if full[i] == "CASSLGQAYEQ"]
+    want_full += [(e11[0], e11[1], 0), (e11[1], e11[0], 0)]
+    rec.note(case, True, [f"n={len(full)}", case["engine"], f"k={k}"])
+    got = trip(call("search", run_self, case["engine"], full, k))
+    same_multiset("dense-hamming-set", got, want_full, f"engine={case['engine']} k={k} n={len(full)} (all substitutions of {case['founders']} founder(s) plus other lengths)")
+
+
+def enum_dense(tier):
+    yield {"engine": "kdtree", "founders": 2, "k": 1}
+    yield {"engine": "kdtree", "founders": 1, "k": 2}
+    yield {"engine": "symdel", "founders": 2, "k": 1}
+    yield {"engine": "hash_based", "founders": 1, "per_founder": 80, "step": 3, "k": 1}
+    if tier == "thorough":
+        yield {"engine": "kdtree", "founders": 3, "k": 2}
+        yield {"engine": "nearest_neighbor", "founders": 3, "k": 2}
+        yield {"engine": "hash_based", "founders": 2, "k": 1}
+
+
 SUBS = [
     Sub("self_exhaustive", check_self, enum=enum_cases),
+    Sub("dense", check_dense, enum=enum_dense),
     Sub("self_random", check_self, strategy=lambda tier: self_case(tier), budget=(2500, 30000)),
     Sub("cross_random", check_cross, strategy=lambda tier: cross_case(tier), budget=(1200, 12000)),
 ]
